@@ -104,6 +104,9 @@ func (s *ModelServer) ListModes(_ context.Context, request *traits.ListModesRequ
 	}
 
 	lastKey := pageToken.GetLastResourceName() // the key() of the last item we sent
+	if request.GetPageSize() < 0 {
+		return nil, status.Error(codes.InvalidArgument, "page_size must not be negative")
+	}
 	pageSize := capPageSize(int(request.GetPageSize()))
 
 	sortedModes := s.model.Modes(resource.WithReadMask(request.ReadMask))
